@@ -249,6 +249,13 @@ func (c *eofJoinConn) Read(b []byte) (int, error) {
 
 var payloadTags = []string{"x", "y", "z", "w", "w1", "w2", "w3", "B", "B2", "M", "p1", "p2", "MID", "HUGE"}
 
+func init() {
+	// "m<id>": one payload per packet identifier (configurations with many exchanges open at once)
+	for i := 1; i <= 40; i++ {
+		payloadTags = append(payloadTags, fmt.Sprintf("m%d", i))
+	}
+}
+
 func tagOf(b []byte) string {
 	if len(b) == 0 {
 		return ""
@@ -750,6 +757,9 @@ type brokerMismatch struct {
 // another property does not end the behaviour: what the connections see afterwards is still compared.
 var brokerOwn map[string]bool
 
+// brokerOrderOnly: only the order in which a connection receives the messages of the behaviour's publisher is compared
+var brokerOrderOnly bool
+
 func runBehaviour(steps []bStep, auth string, maxqos int, res *Result) (result *brokerMismatch) {
 	r := newBrokerRun(auth, maxqos)
 	defer r.cleanup()
@@ -759,11 +769,19 @@ func runBehaviour(steps []bStep, auth string, maxqos int, res *Result) (result *
 			result = foreign
 		}
 	}()
+	// order-only mode (C17): the publish steps per payload, the number of receipts per connection and payload, and the
+	// publish step of the last message a connection received
+	pubSteps := map[string][]int{}
+	nrecv := map[string]map[string]int{}
+	lastStep := map[string]int{}
 	for i, st := range steps {
 		a := st.A
 		got := map[string][]bPkt{}
 		skipBarrier := map[string]bool{}
 		where := fmt.Sprintf("step %d %s", i, a.A)
+		if a.A == "publish" && !a.Dup {
+			pubSteps[a.T+" "+a.Pl] = append(pubSteps[a.T+" "+a.Pl], i)
+		}
 		switch a.A {
 		case "connect", "refuse":
 			cl0, sv := net.Pipe()
@@ -1049,6 +1067,40 @@ func runBehaviour(steps []bStep, auth string, maxqos int, res *Result) (result *
 			l.got = nil
 			l.mu.Unlock()
 		}
+		if brokerOrderOnly {
+			// the messages one publisher sends on one topic at one QoS level reach a subscriber in the order they were
+			// published: the specification hands them on in that order (Release), so every message a connection receives
+			// must have been published later than the one it received before; what is missing or extra is not looked at
+			var names []string
+			for name := range got {
+				names = append(names, name)
+			}
+			sort.Strings(names)
+			for _, name := range names {
+				for _, pk := range got[name] {
+					if pk.Ty != "PUBLISH" {
+						continue
+					}
+					key := pk.T + " " + pk.Pl
+					if nrecv[name] == nil {
+						nrecv[name] = map[string]int{}
+						lastStep[name] = -1
+					}
+					k := nrecv[name][key]
+					nrecv[name][key]++
+					if k >= len(pubSteps[key]) {
+						continue
+					}
+					if ps := pubSteps[key][k]; ps < lastStep[name] {
+						return &brokerMismatch{fmt.Sprintf("%s %s: connection %s receives %s, published at step %d, after a message published at step %d",
+							where, actDesc(a), name, showPkts([]bPkt{pk}), ps, lastStep[name]), "C17"}
+					} else {
+						lastStep[name] = ps
+					}
+				}
+			}
+			continue
+		}
 		// projection of the session store
 		if n := r.sp.Count(); n != st.Nsess {
 			// what is stored after a step is the session property's observable (after a refused CONNECT: C11's)
@@ -1159,6 +1211,7 @@ func cmdBrokerReplay(a Args) {
 	auth := a.str("auth", "mockSuccess")
 	maxqos := a.num("maxqos", 2)
 	fragMode = a.num("frag", 0)
+	brokerOrderOnly = a.str("orderonly", "") != ""
 	if o := a.str("own", ""); o != "" {
 		brokerOwn = map[string]bool{}
 		for _, t := range strings.Split(o, ",") {
